@@ -10,10 +10,17 @@ def jobs(ctx):
     per = 90 if q else 700
     js = [("nucleo_hist", ["rand", per, k]) for k in range(core.NCPU)]
     js += [("nucleo_hist", ["long", 12 if q else 120, 100 + k]) for k in range(4)]
+    if ctx.pid == "C07":
+        # the rule of the append shortcut on the real code: whenever reparse(append) reports Update, what the new pattern
+        # matches must match the old one (haystacks built from the new needles through related characters)
+        js += [("pattern_ops", ["narrow", 2500 if q else 120000, k]) for k in range(8)]
     return js
 
 
 def nontrivial(l):
+    if l.startswith("W "):
+        f = dict(w.split("=", 1) for w in l.split()[1:] if "=" in w)
+        return ("W", f.get("text"), f.get("app")) if f.get("status") == "1" and f.get("matched") not in (None, "0") else None
     if not l.startswith("H "):
         return None
     f = dict(w.split("=", 1) for w in l.split()[1:] if "=" in w)
@@ -24,6 +31,8 @@ def nontrivial(l):
 
 
 def describe(l):
+    if l.startswith("W "):
+        return dict(w.split("=", 1) for w in l.split()[1:] if "=" in w)
     f = dict(w.split("=", 1) for w in l.split()[1:] if "=" in w)
     return dict(pool_threads=f.get("pool"), columns=f.get("cols"), events=f.get("ev", "").split(";"), fresh_matcher_result=f.get("fresh"))
 
@@ -32,7 +41,9 @@ RULE = ("seeded histories on a real Nucleo<u32> (1-3 pool threads, 1-2 matcher c
         "current or an older stream, writers paused inside their fill callback between index reservation and publication (up to 3) and released later, "
         "pattern edits typed like a user (append/delete/replace/clear; markers, escapes, upper case) with a truthful append flag, tick that lets the background "
         "run finish, tick whose run is held at run.start (times out) or at run.end (after it read should_notify), restart(true|false), release of a held run; "
-        "then driven to quiescence and compared with a fresh Nucleo. After every event: active_injectors, notify calls; after tick/restart/release: the snapshot "
+        "then driven to quiescence and compared with a fresh Nucleo (C07 also: the 'narrow' stream - random text, appended text with append = true on a real MultiPattern; whenever "
+        "the status is Update, 24 haystacks built from the new needles through related characters (other case, accents, characters whose case folding and normalization "
+        "disagree) that match the new pattern must match the old one). After every event: active_injectors, notify calls; after tick/restart/release: the snapshot "
         "(item count, pattern, matches, get_item / get_matched_item of every match). Distinct non-trivial = distinct event sequences with at least two ticks")
 
 ASSUME = ["the background run is one transition of the model, parameterised by what it observed (Obs); in the correspondence run the harness keeps writers paused "
